@@ -1,5 +1,6 @@
 SPECIFICATION Spec
 CONSTANTS
+  MaxRounds = 0
   N = 3
   K = 2
   MaxLen = 2
